@@ -125,7 +125,7 @@ def cssEscapeN : Nat → Bytes → Bytes
 def spanHex : Nat → Bytes → Bytes × Bytes
   | 0, b => ([], b)
   | _+1, [] => ([], [])
-  | n+1, c :: rest => if isHex c then let (ds, r) := spanHex n rest; (c :: ds, r) else ([], c :: rest)
+  | n+1, c :: rest => if isHex c then (c :: (spanHex n rest).1, (spanHex n rest).2) else ([], c :: rest)
 
 def cssCp (n : Nat) : Nat := if n == 0 || (0xD800 ≤ n && n ≤ 0xDFFF) || n > 0x10FFFF then 0xFFFD else n
 
